@@ -31,7 +31,11 @@ Inductive ccase :=
 | CKey (id : nat) (f : fmt) (hashed : bool) (a : args) (class : nat) (out pre : bytes)
 | CName (s : bytes) (client src dst : bool)
 | CParse (fn : nat) (input : bytes) (class : nat) (out : list fval)
-| CIter (sp : iter_spec) (ob : iter_obs).
+| CIter (sp : iter_spec) (ob : iter_obs)
+(* packet bytes EMITTED BY THE PACKET CONTRACT in a real cross-chain call, and the transfer / call data inside *)
+| CContract (emitted : bytes) (dc : nat) (d : list fval) (rc : nat) (r : bytes)
+            (traw : bytes) (tdc : nat) (td : list fval) (trc : nat) (tr : bytes)
+            (craw : bytes) (cdc : nat) (cd : list fval) (crc : nat) (cr : bytes).
 
 (** * Equality tests *)
 
@@ -223,6 +227,13 @@ Definition case_mismatch (c : ccase) : list nat :=
       let m := parse_model fn inp in
       if Nat.eqb (fst m) class && (negb (Nat.eqb class 0) || fvals_eqb (snd m) out) then [] else [9%nat]
   | CIter s o => iter_mismatch s o
+  | CContract em dc d rc r traw tdc td trc tr craw cdc cd crc cr =>
+      let part (sc : schema) (inp : bytes) (dc : nat) (d : list fval) (rc : nat) (r : bytes) : list nat :=
+        (if out_fvals_matches (decode sc inp) dc d then [] else [4%nat])
+        ++ (if Nat.eqb dc 0 then (if out_bytes_matches (encode sc d) rc r then [] else [5%nat]) else []) in
+      part packet_schema em dc d rc r
+      ++ (match traw with [] => [] | _ => part transfer_data_schema traw tdc td trc tr end)
+      ++ (match craw with [] => [] | _ => part call_data_schema craw cdc cd crc cr end)
   end.
 
 Fixpoint number {A} (i : nat) (l : list A) : list (nat * A) :=
@@ -290,6 +301,13 @@ Definition case_monitor (c : ccase) : list nat :=
       (* what the key theorems need of an accepted chain name: no separator, not empty *)
       if (cl || sr || ds) && (negb (no_sep s) || match s with [] => true | _ => false end) then [36%nat] else []
   | CParse _ _ _ _ => []
+  | CContract em dc d rc r traw tdc td trc tr craw cdc cd crc cr =>
+      (* re-encoding the bytes emitted by the contract returns the same bytes *)
+      let part (inp : bytes) (dc rc : nat) (r : bytes) : bool := Nat.eqb dc 0 && Nat.eqb rc 0 && bytes_eqb r inp in
+      if part em dc rc r
+         && (match traw with [] => true | _ => part traw tdc trc tr end)
+         && (match craw with [] => true | _ => part craw cdc crc cr end)
+      then [] else [37%nat]
   | CIter s o =>
       let cons_written := flat_map (fun c => map (fun h => (cl_name c, h)) (cl_heights c)) (is_clients s) in
       (if read_back name_height_eqb cons_written (io_cons o) then [] else [43%nat])
